@@ -59,6 +59,11 @@ class FakeServer:
         self._selected = None
         self.href_style = href_style
         self.fired = None
+        self.extra = {}        # site -> {"docs", "pages", "plan", "selected"}: further result sets served concurrently
+
+    def add_site(self, site, docs, pages):
+        """A second/third result set, keyed by site, so that several client generators can be alive at once."""
+        self.extra[site] = {"docs": docs, "pages": list(pages), "plan": None, "selected": None}
 
     # -- query handling
     def _select(self, query):
@@ -86,14 +91,16 @@ class FakeServer:
             docs.sort(key=lambda d: parse_rfc1123(d["connectionTime"]))
         return docs
 
-    def _page(self, k):
-        sel = self._selected
-        sizes = self._plan
+    def _page(self, k, site=None):
+        if site is not None and site in self.extra:
+            sel, sizes = self.extra[site]["selected"], self.extra[site]["plan"]
+        else:
+            sel, sizes, site = self._selected, self._plan, self._site
         start = sum(sizes[:k])
         items = sel[start:start + sizes[k]]
         body = {"_items": items, "_links": {"self": {"href": "x"}}, "_meta": {"page": k + 1}}
         if k + 1 < len(sizes):
-            href = "sessions/%s?page=%d&tok=%d" % (self._site, k + 2, 7919 * (k + 2))
+            href = "sessions/%s?page=%d&tok=%d" % (site, k + 2, 7919 * (k + 2))
             body["_links"]["next"] = {"href": href, "title": "next page"}
         return body
 
@@ -110,6 +117,26 @@ class FakeServer:
         path = url[len(self.base):]
         p = urllib.parse.urlsplit(path)
         q = dict(urllib.parse.parse_qsl(p.query, keep_blank_values=True))
+        m0 = re.match(r"^sessions/(\w+?)(/ts/)?$", p.path)
+        xsite = m0.group(1) if m0 and m0.group(1) in self.extra else None
+        if xsite is not None:
+            st = self.extra[xsite]
+            if "page" in q and st["plan"] is not None:
+                return Response(self._page(int(q["page"]) - 1, xsite))
+            save = self.docs
+            self.docs = st["docs"]
+            st["selected"] = self._select(q)
+            self.docs = save
+            rest = len(st["selected"])
+            sizes = []
+            for s_ in st["pages"]:
+                s_ = min(s_, rest)
+                sizes.append(s_)
+                rest -= s_
+            if rest > 0 or not sizes:
+                sizes.append(rest)
+            st["plan"] = sizes
+            return Response(self._page(0, xsite))
         if "page" in q and self._plan is not None:
             k = int(q["page"]) - 1
         else:
